@@ -64,7 +64,7 @@ def main():
             for p in torun:
                 env = dict(os.environ, VERIF_REPO=WT)
                 rr = subprocess.run([os.path.join(V, "check"), p], env=env, stdout=subprocess.PIPE, stderr=subprocess.STDOUT, text=True)
-                rules = re.findall(r"rule=(\S+) construct=(\S+)", rr.stdout)
+                rules = re.findall(r"^  rule=(\S+) construct=(\S+)", rr.stdout, re.M)
                 if rr.returncode == 2 or "ANALYSIS-ERROR" in rr.stdout:
                     fired[p] = "ANALYSIS-ERROR " + rr.stdout[-300:]
                 elif rr.returncode != 0:
